@@ -3065,6 +3065,212 @@ fn chunks_mode(out: &mut Out, rng: &mut Rng, thorough: bool) {
 	st.dump(out, "chunks");
 }
 
+// ---------------------------------------------------------------------------------------------
+// beyond: segments whose identifier lies beyond the MMR, the empty MMR included
+// ---------------------------------------------------------------------------------------------
+
+/// run `f` on its own thread; `None` = it did not return within the watchdog time (a hang: before
+/// the repair 362e7d94e `Segment::root` walked 2^64 positions for an empty MMR)
+fn watchdog<R: Send + 'static, F: FnOnce() -> R + Send + 'static>(secs: u64, f: F) -> Option<R> {
+	let (tx, rx) = std::sync::mpsc::channel();
+	std::thread::spawn(move || {
+		let _ = tx.send(f());
+	});
+	rx.recv_timeout(std::time::Duration::from_secs(secs)).ok()
+}
+
+fn beyond_mode(out: &mut Out, rng: &mut Rng, thorough: bool) {
+	use grin_core::core::BlockHeader;
+	let mut st = Stats::default();
+	let mut hung = false;
+	let mut ba = VecBackend::<Elem>::new();
+	let mut size = 0u64;
+	let mut sizes_by_leaves: Vec<u64> = vec![0];
+	let maxn: u64 = if thorough { 40 } else { 24 };
+	for _ in 1..=maxn {
+		let e = Elem(rng.bytes(8));
+		let mut p = PMMR::at(&mut ba, size);
+		p.push(&e).unwrap();
+		size = p.size;
+		sizes_by_leaves.push(size);
+	}
+	let mmr = ReadonlyPMMR::<Elem, _>::at(&ba, size);
+	let root = mmr.root().unwrap();
+	out.raw("seg new");
+	'outer: for height in 0..=4u8 {
+		let cap = 1u64 << height;
+		for idx in 0..((maxn + cap - 1) / cap) {
+			let id = SegmentIdentifier { height, idx };
+			// a genuine segment of the big MMR, and garbage with the same identifier
+			let genuine = match Segment::<Elem>::from_pmmr(id, &mmr, false) {
+				Ok(s) => parts_of(&s),
+				Err(_) => continue,
+			};
+			let (first, _) = id.segment_pos_range(size);
+			let mut garbage = genuine.clone();
+			garbage.hash_pos = vec![first, first + 1 + rng.below(5)];
+			garbage.hashes = vec![Hash::from_vec(&rng.bytes(32)), Hash::from_vec(&rng.bytes(32))];
+			garbage.leaf_data = garbage.leaf_data.iter().map(|_| rng.bytes(8)).collect();
+			garbage.proof = (0..rng.below(5)).map(|_| Hash::from_vec(&rng.bytes(32))).collect();
+			let mut leafless = genuine.clone();
+			leafless.leaf_pos = vec![];
+			leafless.leaf_data = vec![];
+			leafless.hash_pos = vec![first];
+			leafless.hashes = vec![Hash::from_vec(&rng.bytes(32))];
+			// MMR sizes in which the segment does not exist: the empty MMR and every size whose leaf
+			// count is at most the segment's leaf offset (smaller than the segment's first position)
+			let mut small: Vec<u64> = vec![0];
+			let off = idx * cap;
+			for k in [1u64, off / 2, off.saturating_sub(1), off].iter() {
+				if *k >= 1 && *k <= off {
+					small.push(sizes_by_leaves[*k as usize]);
+				}
+			}
+			small.sort();
+			small.dedup();
+			for (pname, p) in [("genuine", &genuine), ("garbage", &garbage), ("leafless", &leafless)].iter() {
+				for msize in &small {
+					// no bitmap / a random bitmap / the EMPTY bitmap (nothing required: before the repair the
+					// loop over the wrapped range of an empty MMR found nothing to stop at)
+					for bm_kind in 0..3u8 {
+						let with_bm = &(bm_kind > 0);
+						let bm_idx: Vec<u32> = if bm_kind == 1 { (0..maxn as u32).filter(|_| rng.chance(1, 2)).collect() } else { vec![] };
+						let bmo: Option<Bitmap> = if *with_bm { Some(bm_idx.iter().cloned().collect()) } else { None };
+						let other = Hash::from_vec(&rng.bytes(32));
+						let plain = Target { size: *msize, root, with: None };
+						let with = Target { size: *msize, root, with: Some((*msize, other, rng.chance(1, 2))) };
+						let (pp, pl, wi, bi, wb, ms) = ((*p).clone(), plain.clone(), with.clone(), bm_idx.clone(), *with_bm, *msize);
+						let r = watchdog(if thorough { 8 } else { 4 }, move || {
+							let seg = build::<Elem>(&pp)?;
+							let bm: Option<Bitmap> = if wb { Some(bi.iter().cloned().collect()) } else { None };
+							Some(four_calls(&seg, ms, bm.as_ref(), &pl, &wi))
+						});
+						st.inc(&format!("calls:{}:size={}", pname, if *msize == 0 { "0" } else { "below-first-position" }));
+						let lhs = validate_lhs(p, &plain, bmo.as_ref());
+						match r {
+							None => {
+								out.raw(&format!(
+									"#ORACLE-FAIL C16 beyond: Segment::root / validate did not return within the watchdog time (hang) for a segment that does not exist in an MMR of size {}: identifier ({},{}) content={} bitmap={} :: {} (remaining cases skipped)",
+									msize, height, idx, pname, if *with_bm { "some" } else { "none" }, lhs
+								));
+								hung = true;
+								break 'outer;
+							}
+							Some(None) => st.inc("from_parts-asserts"),
+							Some(Some(v)) => {
+								out.line(&format!("seg root {} {} {}", msize, bm_str(bmo.as_ref()), parts_str(p)), &v[0]);
+								out.line(&format!("seg fup {} {} {}", msize, bm_str(bmo.as_ref()), parts_str(p)), &v[1]);
+								out.line(&lhs, &v[2]);
+								out.line(&validate_lhs(p, &with, bmo.as_ref()), &v[3]);
+								st.inc(&format!("verdict:{}", v[2].split(':').take(2).collect::<Vec<_>>().join(":")));
+								if v.iter().any(|x| x != "err:nonexistent") {
+									out.raw(&format!(
+										"#ORACLE-FAIL C16 beyond: a segment whose identifier lies beyond the MMR must be refused with NonExistent by root / first_unpruned_parent / validate / validate_with, got {:?}: mmr_size={} ({} leaves) identifier ({},{}) leaf offset {} content={} :: {}",
+										v, msize, pmmr::n_leaves(*msize), height, idx, off, pname, lhs
+									));
+								}
+							}
+						}
+					}
+				}
+			}
+		}
+	}
+	// the Desegmenter-level case: an archive header that claims output_mmr_size 0
+	if !hung {
+		use grin_chain::pibd_params::verif_hooks::set_segment_heights;
+		let work = std::env::var("VERIF_WORK").expect("VERIF_WORK not set");
+		let kit = Kit::new(&format!("{}/beyond_src", work));
+		let mk_parts = |h: u8, idx: u64, rng: &mut Rng, hashes: usize| -> (SegmentIdentifier, Vec<u64>, Vec<Hash>, SegmentProof) {
+			let hp: Vec<u64> = (0..hashes as u64).collect();
+			let hs: Vec<Hash> = (0..hashes).map(|_| Hash::from_vec(&rng.bytes(32))).collect();
+			let pr: Vec<Hash> = (0..rng.below(4)).map(|_| Hash::from_vec(&rng.bytes(32))).collect();
+			(SegmentIdentifier { height: h, idx }, hp, hs, mk_proof(&pr))
+		};
+		for (ci, hs) in [None, Some((0u8, 1u8, 1u8, 1u8)), Some((2, 3, 3, 2))].iter().enumerate() {
+			let (_, ho, hr, hk) = hs.unwrap_or((9, 11, 11, 11));
+			let dest = Subject::new(&format!("{}/beyond_dst_{}", work, ci), &kit.genesis);
+			let mut hdr = BlockHeader::default();
+			hdr.version = grin_core::core::block::HeaderVersion(5);
+			hdr.height = 77;
+			hdr.output_mmr_size = 0;
+			hdr.kernel_mmr_size = 0;
+			hdr.output_root = Hash::from_vec(&rng.bytes(32));
+			set_segment_heights(*hs);
+			let deseg = dest.c().desegmenter(&hdr).unwrap();
+			set_segment_heights(None);
+			// zero outputs = zero bitmap chunks: the first apply_next_segments finalises the (empty)
+			// bitmap, after which output / rangeproof segments are validated WITH a bitmap
+			if ci > 0 {
+				let d2 = deseg.clone();
+				let r = watchdog(4, move || d2.write().as_mut().unwrap().apply_next_segments().is_ok());
+				st.inc(&format!("desegmenter:apply-on-empty:{:?}", r));
+				if r.is_none() {
+					out.raw("#ORACLE-FAIL C16 beyond: apply_next_segments did not return for an archive header with output_mmr_size 0");
+					hung = true;
+				}
+			}
+			for idx in [0u64, 1, 5].iter() {
+				if hung {
+					break;
+				}
+				for nh in [0usize, 1, 3].iter() {
+					for tree in ["output", "rangeproof", "kernel"].iter() {
+						let h = match *tree { "output" => ho, "rangeproof" => hr, _ => hk };
+						let (id, hp, hsh, proof) = mk_parts(h, *idx, rng, *nh);
+						let d2 = deseg.clone();
+						let t = tree.to_string();
+						let r = watchdog(if thorough { 8 } else { 4 }, move || {
+							let mut g = d2.write();
+							let d = g.as_mut().unwrap();
+							let res = match t.as_str() {
+								"output" => d.add_output_segment(Segment::from_parts(id, hp, hsh, vec![], vec![], proof), None),
+								"rangeproof" => d.add_rangeproof_segment(Segment::from_parts(id, hp, hsh, vec![], vec![], proof)),
+								_ => d.add_kernel_segment(Segment::from_parts(id, hp, hsh, vec![], vec![], proof)),
+							};
+							match res {
+								Ok(()) => "ok".to_string(),
+								Err(e) => format!("err:{}", error_class(&e)),
+							}
+						});
+						let tag = format!("archive header with output_mmr_size 0 / kernel_mmr_size 0, add_{}_segment of ({},{}) with {} hashes", tree, h, idx, nh);
+						match r {
+							None => {
+								out.raw(&format!("#ORACLE-FAIL C16 beyond: the desegmenter did not return within the watchdog time (hang, with its lock held): {}", tag));
+								hung = true;
+							}
+							Some(v) => {
+								st.inc(&format!("desegmenter:add_{}:{}", tree, v));
+								if v == "ok" {
+									out.raw(&format!("#ORACLE-FAIL C16 beyond: a segment was accepted against an empty MMR: {}", tag));
+								}
+							}
+						}
+						if hung {
+							break;
+						}
+					}
+					if hung {
+						break;
+					}
+				}
+				if hung {
+					break;
+				}
+			}
+			if hung {
+				break;
+			}
+		}
+	}
+	st.dump(out, "beyond");
+	if hung {
+		// a spinning thread cannot be stopped: end the process once everything is written
+		out.flush();
+		std::process::exit(0);
+	}
+}
+
 fn main() {
 	if std::env::var("VERIF_DEBUG").is_err() {
 		quiet_panics();
@@ -3091,6 +3297,9 @@ fn main() {
 	}
 	if mode == "chunks" {
 		chunks_mode(&mut out, &mut rng, thorough);
+	}
+	if mode == "beyond" {
+		beyond_mode(&mut out, &mut rng, thorough);
 	}
 	if mode == "ident" || mode == "all" {
 		ident_mode(&mut out, &mut rng, thorough);
